@@ -57,7 +57,15 @@ pub fn run_case(ctx: &Ctx, sz: &Sizes, case: u64) {
     let mut acts: Vec<SAct> = Vec::new();
     let allow_multi = is_os();
     for _ in 0..nsend {
-        let len = if allow_multi && r.chance(200) { sz.f1 + r.range(1, 2 * sz.f2 as u64) as usize } else { r.below(2000) as usize };
+        // (on the in-process transport "large" means several MiB: whatever it does with big payloads
+        // then happens while the receiver is inside a short timed wait)
+        let len = if allow_multi && r.chance(200) {
+            sz.f1 + r.range(1, 2 * sz.f2 as u64) as usize
+        } else if !allow_multi && !cfg!(miri) && r.chance(120) {
+            (4 << 20) + r.range(1, 8 << 20) as usize
+        } else {
+            r.below(2000) as usize
+        };
         acts.push(SAct::Send { at_us: r.below(60_000), len });
     }
     let drops = r.chance(600);
@@ -373,7 +381,11 @@ pub fn run(ctx: &Ctx) {
         if !ctx.want(case) {
             continue;
         }
+        // (a probe or sender thread that never comes back ends the batch through the per-case
+        // watchdog instead of hanging it)
+        let _g = op_begin("receive-sequence", case);
         run_case(ctx, &sz, case);
+        drop(_g);
         if ctx.rep.nviol.load(Ordering::Relaxed) >= 4 {
             break;
         }
